@@ -19,6 +19,15 @@ CLAIMED['C18'] = dict(
     note='Trusted: Kani/CBMC; stub syn item types with the same variant/field names (payload = identity byte). Assumes all extern blocks of one run carry the same unsafety (the merge key ignores it). Not covered: syn parse/print, compiling the result, module recursion, pass selection, sequences longer than the bound (an unstable sort that is stable on short slices is indistinguishable).',
     ref='DESIGN.md section 3, C18')
 
+CLAIMED['C02'] = dict(
+    text='Bounded model checking of the real codegen/struct_layout.rs, helpers::{blob,integer_type,bitfield_unit} and ir/layout.rs: for each alignment/packing tuple (natural, packed, #pragma pack(2|4), aligned(N) on a member) the solver chooses member sizes and options; C offsets come from an Itanium/SysV record-layout model, the emitted field list (members + decoded padding blobs) is laid out by the Rust repr(C)/packed(n)/align(n) rules, and member offsets, size and alignment must coincide. Plus blob exactness, padding-blob placement, Layout::for_size and align_to over their whole domains. Kernel level: the arithmetic that decides layout, not a C compiler round trip.',
+    note='Trusted: Kani/CBMC; the C record-layout model and the Rust repr rules written in the harness; decoding macros of the stub environment. The statement order of CompInfo::codegen is a hand model pinned by sha256. Not covered: primitive type mapping, enum repr, libclang numbers, C++ tail padding reuse, value round trips.',
+    ref='DESIGN.md section 3, C02')
+CLAIMED['C05'] = dict(
+    text='Bounded model checking over ALL i64 values and option combinations of default_macro_constant_type (kind holds the value, sign rule, narrowest allowed), the literal choice of Var::codegen composed with the real IntKind::{is_signed,known_size}, the char-literal conversion of Var::parse, EvalResult::as_int against a libclang contract stub, and the enum repr translation table. Kernel level.',
+    note='Trusted: Kani/CBMC; libclang CXEvalResult contract stub (getAsInt truncates, getAsLongLong/getAsUnsigned do not). Not covered: cexpr macro evaluation (disagrees with C for unsigned/overflowing expressions, documented), floats, strings, enumerator extraction.',
+    ref='DESIGN.md section 3, C05')
+
 NOT_APPLICABLE = {
     'C06': 'layout assertions are assembled by quote! templates inside CompInfo::codegen over numbers libclang supplies at run time; there is no separable computation to encode, and cross-target truth needs that target\'s C compiler (DESIGN.md section 3, C06)',
     'C11': 'quantifies over processes, hash seeds, thread interleavings and in-process histories; Kani has no concurrency/process model and the hash containers whose iteration order matters are exactly what the stub environment replaces (DESIGN.md section 3, C11)',
